@@ -622,7 +622,9 @@ def run_property(prop, tier, seed, only=None):
     )
     extra = getattr(mod, 'EXTRA_COVERAGE', None)
     if extra:
-        coverage.update(extra)
+        # values may be computed from the per-sub-check results of this run
+        coverage.update({k: (v(persub) if callable(v) else v)
+                         for k, v in extra.items()})
     evidence = dict(property_id=prop, tier=tier, seed=seed,
                     level='exploration', coverage=coverage,
                     assumptions=list(mod.ASSUMPTIONS), wall_s=round(wall, 2),
@@ -631,6 +633,18 @@ def run_property(prop, tier, seed, only=None):
     with open(os.path.join(OUT, 'evidence', prop + '.json'), 'w',
               encoding='utf-8') as fp:
         json.dump(evidence, fp, indent=1, sort_keys=True, default=str)
+    schema_error = None
+    try:
+        import jsonschema
+        with open('/root/.vp/EVIDENCE.schema.json', encoding='utf-8') as fp:
+            schema = json.load(fp)
+        with open(os.path.join(OUT, 'evidence', prop + '.json'),
+                  encoding='utf-8') as fp:
+            jsonschema.validate(json.load(fp), schema)
+    except (ImportError, OSError):
+        pass
+    except Exception as exc:  # pylint: disable=broad-except
+        schema_error = str(exc)[:400]
 
     print('%s tier=%s seed=%d: %d evaluations, %d distinct non-trivial, '
           '%d sub-checks, %d shards, %.1f s, inconclusive=%d skipped=%d' %
@@ -651,6 +665,10 @@ def run_property(prop, tier, seed, only=None):
                   'limit' % (r['sub'], r['shard']))
         if not violations:
             return 2
+    if schema_error and not violations:
+        print('HARNESS-ERROR evidence file does not match EVIDENCE.schema.'
+              'json: ' + schema_error)
+        return 2
     return 1 if violations else 0
 
 
